@@ -1,0 +1,75 @@
+// Copyright 2026 Blink Labs Software
+//
+// Licensed under the Apache License, Version 2.0 (the "License");
+// you may not use this file except in compliance with the License.
+// You may obtain a copy of the License at
+//
+//     http://www.apache.org/licenses/LICENSE-2.0
+//
+// Unless required by applicable law or agreed to in writing, software
+// distributed under the License is distributed on an "AS IS" BASIS,
+// WITHOUT WARRANTIES OR CONDITIONS OF ANY KIND, either express or implied.
+// See the License for the specific language governing permissions and
+// limitations under the License.
+
+package pipeline
+
+import (
+	"context"
+	"testing"
+	"time"
+
+	"github.com/blinklabs-io/gouroboros/ledger"
+	pcommon "github.com/blinklabs-io/gouroboros/protocol/common"
+	"github.com/stretchr/testify/require"
+)
+
+// A Submit that fails because the caller's context expired while the
+// pipeline applied backpressure must not leave a sequence gap: blocks
+// submitted successfully afterwards still reach Results().
+func TestBlockPipeline_FailedSubmitLeavesNoSequenceGap(t *testing.T) {
+	p := NewBlockPipeline(
+		WithDecodeWorkers(1),
+		WithPrefetchBufferSize(1),
+		WithApplyFunc(func(*BlockItem) error { return nil }),
+	)
+	require.NoError(t, p.Start(context.Background()))
+	defer p.Stop() //nolint:errcheck
+	go func() {
+		for range p.Errors() { //nolint:revive
+		}
+	}()
+
+	// Nobody reads Results() yet, so the pipeline fills up and a Submit
+	// eventually times out.
+	accepted := 0
+	for {
+		ctx, cancel := context.WithTimeout(context.Background(), 100*time.Millisecond)
+		err := p.Submit(ctx, uint(ledger.BlockTypeShelley), []byte{0x01}, pcommon.Tip{})
+		cancel()
+		if err != nil {
+			require.ErrorIs(t, err, context.DeadlineExceeded)
+			break
+		}
+		accepted++
+		require.Less(t, accepted, 100, "pipeline never applied backpressure")
+	}
+
+	results := make(chan uint64, 128)
+	go func() {
+		for item := range p.Results() {
+			results <- item.SequenceNumber()
+		}
+	}()
+	for range 3 {
+		require.NoError(t, p.Submit(context.Background(), uint(ledger.BlockTypeShelley), []byte{0x01}, pcommon.Tip{}))
+	}
+	for want := range uint64(accepted + 3) {
+		select {
+		case got := <-results:
+			require.Equal(t, want, got)
+		case <-time.After(5 * time.Second):
+			t.Fatalf("result %d of %d never arrived (PendingCount=%d)", want, accepted+3, p.PendingCount())
+		}
+	}
+}
